@@ -9,6 +9,7 @@ import (
 	"os"
 	"os/exec"
 	"path/filepath"
+	"regexp"
 	"sort"
 	"strings"
 	"sync"
@@ -22,7 +23,7 @@ type mutantResult struct {
 
 func runSelftest(args []string) int {
 	fs := flag.NewFlagSet("selftest", flag.ExitOnError)
-	only := fs.String("only", "", "substring filter on patch names")
+	only := fs.String("only", "", "regular expression filter on patch names")
 	dirFlag := fs.String("dir", filepath.Join(verifDir, "selftest"), "corpus directory")
 	par := fs.Int("j", 4, "parallel mutants")
 	prop := fs.String("p", "", "only mutants of this property")
@@ -77,7 +78,7 @@ func runMutants(dir, only, prop string, par int, withSeeded bool) []mutantResult
 		if isSeeded {
 			name = "seeded/" + filepath.Base(filepath.Dir(p))
 		}
-		if only != "" && !strings.Contains(name, only) {
+		if only != "" && !regexp.MustCompile(only).MatchString(name) {
 			continue
 		}
 		if prop != "" {
